@@ -1162,3 +1162,184 @@ Proof.
   pose proof (sort_rates_sorted rates) as HS. fold srt in HS. rewrite Es in HS.
   exact (sorted_app_order _ _ (b, rb) (a, ra) HS Inb Ina).
 Qed.
+
+(* ---- C14: the broadcast map is exactly the set of changes ------------------------------------------------------ *)
+Definition last_flip (fl : list (addr * bool)) (a : addr) : option bool :=
+  fold_left (fun acc kv => if fst kv =? a then Some (snd kv) else acc) fl None.
+Definition mlook (m : list (addr * bool)) (a : addr) : option bool :=
+  match find (fun kv => fst kv =? a) m with Some kv => Some (snd kv) | None => None end.
+
+Lemma last_flip_acc l a : forall acc : option bool,
+  fold_left (fun acc kv => if fst kv =? a then Some (snd kv) else acc) l acc =
+  match last_flip l a with Some b => Some b | None => acc end.
+Proof.
+  unfold last_flip. induction l as [|[k v] l IH]; intros acc; cbn [fold_left fst snd]; [reflexivity|].
+  destruct (k =? a).
+  - rewrite (IH (Some v)). destruct (fold_left _ l None); reflexivity.
+  - apply IH.
+Qed.
+
+Lemma last_flip_app l1 l2 a : last_flip (l1 ++ l2) a =
+  match last_flip l2 a with Some b => Some b | None => last_flip l1 a end.
+Proof. unfold last_flip at 1. rewrite fold_left_app. apply last_flip_acc. Qed.
+
+Lemma mlook_map_put m a b a' : mlook (map_put m a b) a' = if a =? a' then Some b else mlook m a'.
+Proof.
+  unfold mlook. induction m as [|[k v] m IH]; cbn [map_put find fst snd].
+  - destruct (a =? a'); reflexivity.
+  - destruct (N.eqb_spec k a) as [->|Nk]; cbn [find fst snd].
+    + destruct (a =? a'); reflexivity.
+    + destruct (N.eqb_spec k a') as [->|Nk'].
+      * replace (a =? a') with false by (symmetry; apply N.eqb_neq; congruence). reflexivity.
+      * exact IH.
+Qed.
+
+Lemma mlook_flips fl a : mlook (flips_to_map fl) a = last_flip fl a.
+Proof.
+  unfold flips_to_map, last_flip.
+  assert (G : forall m acc, mlook m a = acc ->
+          mlook (fold_left (fun m kv => map_put m (fst kv) (snd kv)) fl m) a =
+          fold_left (fun acc kv => if fst kv =? a then Some (snd kv) else acc) fl acc).
+  { induction fl as [|[k v] fl IH]; intros m acc E; cbn [fold_left fst snd]; [exact E|].
+    apply IH. rewrite mlook_map_put, E. reflexivity. }
+  apply G. reflexivity.
+Qed.
+
+Lemma last_flip_in fl a b : last_flip fl a = Some b -> In (a, b) fl.
+Proof.
+  pattern fl. apply rev_ind; [discriminate|]. intros [k v] l IH H. rewrite last_flip_app in H. cbn in H.
+  destruct (N.eqb_spec k a) as [->|Nk].
+  - injection H as <-. apply in_or_app. right. left. reflexivity.
+  - apply in_or_app. left. apply IH, H.
+Qed.
+
+Definition amc (ps : list (addr * peer)) (a : addr) : option bool := option_map p_am_choked (pget ps a).
+
+(* the flips recorded so far describe exactly how the current state differs from the initial one *)
+Definition FInv (ps0 ps : list (addr * peer)) (flips : list (addr * bool)) (seen : list addr) : Prop :=
+  forall a, (last_flip flips a = None -> amc ps a = amc ps0 a) /\
+            (forall b, last_flip flips a = Some b -> amc ps a = Some b /\ amc ps0 a = Some (negb b) /\ In a seen).
+
+Lemma FInv_step ps0 ps flips seen a p amv opt :
+  FInv ps0 ps flips seen -> last_flip flips a = None -> pget ps a = Some p ->
+  FInv ps0 (pset ps a (set_am_choked p amv opt))
+       (flips ++ (if Bool.eqb amv (p_am_choked p) then [] else [(a, amv)])) (a :: seen).
+Proof.
+  intros HI Hn Ep x. rewrite last_flip_app. destruct (N.eq_dec a x) as [<-|Nx].
+  - unfold amc. rewrite pget_pset_same. cbn [option_map set_am_choked p_am_choked].
+    destruct (HI a) as [H1 _]. specialize (H1 Hn). unfold amc in H1. rewrite Ep in H1. cbn [option_map] in H1.
+    destruct (Bool.eqb amv (p_am_choked p)) eqn:E.
+    + cbn. rewrite Hn. split; [intros _; apply eqb_prop in E; rewrite E; exact H1 | discriminate].
+    + cbn. rewrite N.eqb_refl. split; [discriminate|]. intros b [= <-]. split; [reflexivity|]. split; [|left; reflexivity].
+      rewrite <- H1. f_equal. destruct amv, (p_am_choked p); cbn in *; try reflexivity; discriminate.
+  - assert (L : last_flip (if Bool.eqb amv (p_am_choked p) then [] else [(a, amv)]) x = None).
+    { destruct (Bool.eqb amv (p_am_choked p)); cbn; [reflexivity|]. replace (a =? x) with false by (symmetry; apply N.eqb_neq; exact Nx). reflexivity. }
+    rewrite L. unfold amc. rewrite pget_pset_other by exact Nx. destruct (HI x) as [H1 H2].
+    split; [exact H1|]. intros b Hb. destruct (H2 b Hb) as (A & B & C). split; [exact A|]. split; [exact B | right; exact C].
+Qed.
+
+Lemma rotate_go_FInv new_opt ps0 : forall order ps count flips seen ps' fl,
+  NoDup order -> (forall a, In a order -> ~ In a seen) -> FInv ps0 ps flips seen ->
+  rotate_go ps order new_opt count flips = Ok (ps', fl) -> exists seen', FInv ps0 ps' fl seen'.
+Proof.
+  induction order as [|a rest IH]; intros ps count flips seen ps' fl Hnd Hdis HI H; cbn [rotate_go] in H.
+  - injection H as <- <-. exists seen. exact HI.
+  - destruct (pget ps a) as [p|] eqn:Ep; [|discriminate]. inversion Hnd as [|? ? Hni Hnd']; subst.
+    assert (Hn : last_flip flips a = None).
+    { destruct (last_flip flips a) as [b|] eqn:E; [|reflexivity]. exfalso. destruct (HI a) as [_ H2].
+      destruct (H2 b E) as (_ & _ & Hin). exact (Hdis a (or_introl eq_refl) Hin). }
+    assert (Go : forall amv cnt fl0, fl0 = (if Bool.eqb amv (p_am_choked p) then [] else [(a, amv)]) ->
+              rotate_go (pset ps a (set_am_choked p amv match new_opt with [] => p_optimistic p | _ => false end)) rest new_opt cnt (flips ++ fl0) = Ok (ps', fl) ->
+              exists seen', FInv ps0 ps' fl seen').
+    { intros amv cnt fl0 -> H'. eapply (IH _ _ _ (a :: seen)); [exact Hnd'| |apply FInv_step; eassumption|exact H'].
+      intros x Hx [<-|Hs]; [exact (Hni Hx) | exact (Hdis x (or_intror Hx) Hs)]. }
+    destruct (count <? MAX_UNCHOKED).
+    + destruct (p_am_choked p && p_interested p && negb (mem_addr a new_opt)) eqn:E1.
+      * apply (Go false (count + 1) [(a, false)]); [|exact H].
+        apply andb_true_iff in E1. destruct E1 as [E1 _]. apply andb_true_iff in E1. destruct E1 as [-> _]. reflexivity.
+      * destruct (negb (p_am_choked p) && p_interested p) eqn:E2.
+        -- apply (Go (p_am_choked p) (count + 1) []); [rewrite eqb_reflx; reflexivity | exact H].
+        -- destruct (negb (p_am_choked p) && negb (p_interested p)) eqn:E3.
+           ++ apply (Go true count [(a, true)]); [|exact H].
+              apply andb_true_iff in E3. destruct E3 as [E3 _]. apply negb_true_iff in E3. rewrite E3. reflexivity.
+           ++ apply (Go (p_am_choked p) count []); [rewrite eqb_reflx; reflexivity | exact H].
+    + destruct (negb (p_am_choked p)) eqn:E1.
+      * apply (Go true count [(a, true)]); [|exact H]. apply negb_true_iff in E1. rewrite E1. reflexivity.
+      * apply (Go (p_am_choked p) count []); [rewrite eqb_reflx; reflexivity | exact H].
+Qed.
+
+(* the rotation never records an unchoke for a peer picked as the new optimistic one *)
+Lemma rotate_go_false_flips new_opt : forall order ps count flips ps' fl,
+  rotate_go ps order new_opt count flips = Ok (ps', fl) ->
+  forall a, In (a, false) fl -> In (a, false) flips \/ mem_addr a new_opt = false.
+Proof.
+  induction order as [|a rest IH]; intros ps count flips ps' fl H x Hx; cbn [rotate_go] in H.
+  - injection H as _ <-. left. exact Hx.
+  - destruct (pget ps a) as [p|]; [|discriminate].
+    assert (Go : forall amv cnt fl0, (forall y, In (y, false) fl0 -> mem_addr y new_opt = false) ->
+              rotate_go (pset ps a (set_am_choked p amv match new_opt with [] => p_optimistic p | _ => false end)) rest new_opt cnt (flips ++ fl0) = Ok (ps', fl) ->
+              In (x, false) flips \/ mem_addr x new_opt = false).
+    { intros amv cnt fl0 Hfl H'. destruct (IH _ _ _ _ _ H' x Hx) as [Hin|Hm]; [|right; exact Hm].
+      apply in_app_or in Hin. destruct Hin as [Hin|Hin]; [left; exact Hin | right; exact (Hfl x Hin)]. }
+    destruct (count <? MAX_UNCHOKED).
+    + destruct (p_am_choked p && p_interested p && negb (mem_addr a new_opt)) eqn:E1.
+      * apply (Go false (count + 1) [(a, false)]); [|exact H]. intros y [[= <-]|[]].
+        apply andb_true_iff in E1. destruct E1 as [_ E1]. apply negb_true_iff in E1. exact E1.
+      * destruct (negb (p_am_choked p) && p_interested p); [apply (Go (p_am_choked p) (count + 1) []); [intros y []|exact H]|].
+        destruct (negb (p_am_choked p) && negb (p_interested p)).
+        -- apply (Go true count [(a, true)]); [|exact H]. intros y [[= ]|[]].
+        -- apply (Go (p_am_choked p) count []); [intros y []|exact H].
+    + destruct (negb (p_am_choked p)).
+      * apply (Go true count [(a, true)]); [|exact H]. intros y [[= ]|[]].
+      * apply (Go (p_am_choked p) count []); [intros y []|exact H].
+Qed.
+
+Lemma set_optimistic_FInv ps0 : forall new_opt ps flips seen ps' fl,
+  NoDup new_opt -> (forall a, In a new_opt -> last_flip flips a = None /\ amc ps a = Some true) ->
+  FInv ps0 ps flips seen -> set_optimistic ps new_opt flips = Ok (ps', fl) -> exists seen', FInv ps0 ps' fl seen'.
+Proof.
+  induction new_opt as [|a rest IH]; intros ps flips seen ps' fl Hnd Hopt HI H; cbn [set_optimistic] in H.
+  - injection H as <- <-. exists seen. exact HI.
+  - destruct (pget ps a) as [p|] eqn:Ep; [|discriminate]. inversion Hnd as [|? ? Hni Hnd']; subst.
+    destruct (Hopt a (or_introl eq_refl)) as [Hn Hc]. unfold amc in Hc. rewrite Ep in Hc. cbn in Hc. injection Hc as Hc.
+    pose proof (FInv_step ps0 ps flips seen a p false true HI Hn Ep) as HS. rewrite Hc in HS. cbn [Bool.eqb] in HS.
+    eapply (IH _ _ (a :: seen)); [exact Hnd'| |exact HS|exact H].
+    intros x Hx. destruct (Hopt x (or_intror Hx)) as [Hnx Hcx].
+    assert (Nx : a <> x) by (intros ->; exact (Hni Hx)).
+    split.
+    + rewrite last_flip_app. cbn. replace (a =? x) with false by (symmetry; apply N.eqb_neq; exact Nx). exact Hnx.
+    + unfold amc. rewrite pget_pset_other by exact Nx. exact Hcx.
+Qed.
+
+(* the map broadcast after a rotation holds, for every peer, its new value exactly when the value changed
+   (new optimistic picks are taken among peers we choke: new_optimistic_peers filters on am_choked) *)
+Theorem rotation_map_exact m rates new_opt m' fl :
+  NoDup (map fst rates) -> NoDup new_opt ->
+  (forall a, In a new_opt -> amc (m_peers m) a = Some true) ->
+  change_conn_state m rates new_opt = Ok (m', fl) ->
+  forall a, match mlook fl a with
+            | Some b => amc (m_peers m') a = Some b /\ amc (m_peers m) a = Some (negb b)
+            | None => amc (m_peers m') a = amc (m_peers m) a
+            end.
+Proof.
+  intros Hnd Hndo Hopt H a. unfold change_conn_state in H.
+  destruct (rotate_go (m_peers m) (map fst (sort_rates rates)) new_opt 0 []) as [[ps1 fl1]| | |] eqn:E1; cbn [bind] in H; try discriminate.
+  cbn [fst snd] in H. destruct (set_optimistic ps1 new_opt fl1) as [[ps2 fl2]| | |] eqn:E2; cbn [bind] in H; try discriminate.
+  injection H as <- <-. cbn [m_peers fst snd]. rewrite mlook_flips.
+  assert (Hnd' : NoDup (map fst (sort_rates rates))).
+  { eapply Permutation_NoDup; [apply Permutation_map, Permutation_sym, sort_rates_perm | exact Hnd]. }
+  assert (I0 : FInv (m_peers m) (m_peers m) [] []).
+  { intros x. split; [reflexivity | intros b Hb; discriminate]. }
+  destruct (rotate_go_FInv new_opt (m_peers m) _ _ _ _ [] _ _ Hnd' (fun x _ Hx => Hx) I0 E1) as [seen1 I1].
+  assert (Hopt1 : forall x, In x new_opt -> last_flip fl1 x = None /\ amc ps1 x = Some true).
+  { intros x Hx. destruct (last_flip fl1 x) as [b|] eqn:Eb.
+    - exfalso. destruct (I1 x) as [_ H2]. destruct (H2 b Eb) as (_ & B & _). rewrite (Hopt x Hx) in B.
+      destruct b; [discriminate|].
+      destruct (rotate_go_false_flips new_opt _ _ _ _ _ _ E1 x (last_flip_in _ _ _ Eb)) as [[]|Hm].
+      apply mem_addr_In in Hx. congruence.
+    - split; [reflexivity|]. destruct (I1 x) as [H1 _]. rewrite (H1 Eb). exact (Hopt x Hx). }
+  destruct (set_optimistic_FInv (m_peers m) new_opt ps1 fl1 seen1 ps2 fl2 Hndo Hopt1 I1 E2) as [seen2 I2].
+  destruct (I2 a) as [H1 H2]. destruct (last_flip fl2 a) as [b|].
+  - destruct (H2 b eq_refl) as (A & B & _). split; assumption.
+  - exact (H1 eq_refl).
+Qed.
